@@ -517,6 +517,9 @@ func init() {
 	reg("C16", HarnessDef{ID: "H16.3b", Tier: "thorough", Spec: HarnessSpec{Name: "vH_C16_nonce_pattern2", Pkg: "pkg/cipher", LoopBound: 40, TimeoutS: 900, Par: 4,
 		Redirects: map[string]string{"github.com/enfein/mieru/v3/pkg/common.ToPrintableChar": "vStubToPrintable", "github.com/enfein/mieru/v3/pkg/common.ToCommon64Set": "vStubToCommon64"}},
 		What: "same as H16.3 with two fixed prefixes (the choice among them symbolic)", Bounds: "two 4-byte prefixes", Outside: "as H16.3"})
+	reg("C16", HarnessDef{ID: "H16.3c", Spec: HarnessSpec{Name: "vH_C16_nonce_pattern_clone", Pkg: "pkg/cipher", LoopBound: 40, TimeoutS: 240, Par: 4,
+		Redirects: map[string]string{"github.com/enfein/mieru/v3/pkg/common.ToPrintableChar": "vStubToPrintable", "github.com/enfein/mieru/v3/pkg/common.ToCommon64Set": "vStubToCommon64"}},
+		What: "H16.3 on the cipher's Clone() - what both TCP sending directions use (client t.block.Clone(), server t.recv.Clone()): the clone reports the same pattern and its nonces exhibit it, fixed prefixes included", Bounds: "as H16.3", Outside: "as H16.3"})
 	reg("C20", HarnessDef{ID: "H20.1", Spec: HarnessSpec{Name: "vH_C20_store_hashes_passwords", Pkg: "pkg/appctl/appctlcommon", LoopBound: 40, TimeoutS: 120, Par: 2},
 		What:   "real HashUserPasswords(users, false) - what StoreServerConfig runs right before marshalling - on users with every mix of name / password / hashedPassword fields set or unset (incl. both): afterwards NO user carries a non-empty plaintext password, and a user that had one has a hashed password; keepPlaintext leaves the client's password in place",
 		Bounds: "2 users, strings <= 2 bytes", Outside: "SHA-256 uninterpreted; the marshalling and file write themselves (reflection / I/O)"})
@@ -564,4 +567,35 @@ func init() {
 	reg("C15", HarnessDef{ID: "H15.2", Spec: HarnessSpec{Name: "vH_C15_wait_released_by_close", Pkg: "pkg/protocol", LoopBound: 8, LoopBounds: map[string]int{"closeWithError": 1001, "waitForRecvQueueSpace": 4}, TimeoutS: 120, Par: 2, Redirects: r},
 		What:   "real Session.waitForRecvQueueSpace with the receive queue permanently full and an environment step (another goroutine's Close lands WHILE the waiter is parked): the waiter gives up right after the close instead of polling on - so the input loop, and with it underlay Close / Stop, is released",
 		Bounds: "one waiter, close at its second look at the queue", Outside: "segmentTree.Remaining redirected (always full; closes the session on the second call); real timers; everything else concurrent about Close"})
+}
+
+func init() {
+	sess := map[string]string{
+		"github.com/google/btree.NewG":                           "vTreeNew",
+		"(*github.com/google/btree.BTreeG[T]).Len":               "vTreeLen",
+		"(*github.com/google/btree.BTreeG[T]).ReplaceOrInsert":   "vTreeReplaceOrInsert",
+		"(*github.com/google/btree.BTreeG[T]).Min":               "vTreeMin",
+		"(*github.com/google/btree.BTreeG[T]).Max":               "vTreeMax",
+		"(*github.com/google/btree.BTreeG[T]).DeleteMin":         "vTreeDeleteMin",
+		"(*github.com/google/btree.BTreeG[T]).Clear":             "vTreeClear",
+		"(*github.com/google/btree.BTreeG[T]).Ascend":            "vTreeAscend",
+		"(*github.com/enfein/mieru/v3/pkg/protocol.Session).output": "vStubOutput",
+		"github.com/enfein/mieru/v3/pkg/metrics.RegisterMetric":  "vStubRegisterMetric",
+	}
+	lb := map[string]int{"closeWithError": 1001}
+	note := "B-tree model (capacity 4); Session.output stubbed; mutexes no-ops; the graceful-close wait is unrolled in full (1000 x 1 ms)"
+	reg("C03",
+		HarnessDef{ID: "H3.3", Spec: HarnessSpec{Name: "vH_C03_udp_close_order", Pkg: "pkg/protocol", LoopBound: 8, LoopBounds: lb, TimeoutS: 240, Par: 4, Redirects: sess},
+			What:   "UDP: real Session.input of the peer's close request (sequence number c = number of segments the peer sent before closing) from an arbitrary receive state (nextRecv <= c, possibly a segment buffered ahead of a gap), then Session.Read: a clean io.EOF is observed only if every segment below c was delivered first. Outside the region of known finding C03-i (close request input while segments below c are missing), which is isolated in H3.3k",
+			Bounds: "c within 8 of nextRecv, <= 1 buffered segment", Outside: note},
+		HarnessDef{ID: "H3.3k", KnownFinding: "C03-i", Spec: HarnessSpec{Name: "vH_C03_udp_close_overtakes_data", Pkg: "pkg/protocol", LoopBound: 8, LoopBounds: lb, TimeoutS: 240, Par: 4, Redirects: sess},
+			What:   "the region of known finding C03-i alone: the close request is input while segments below its sequence number are still missing (it overtook them, or they were lost and not yet retransmitted)",
+			Bounds: "as H3.3", Outside: note},
+	)
+}
+
+func init() {
+	reg("C12", HarnessDef{ID: "H12.4k", KnownFinding: "C12-c2", Spec: HarnessSpec{Name: "vH_C12_udp_datagram_policy", Pkg: "pkg/socks5", LoopBound: 30, LoopBounds: map[string]int{"ReadAtLeast": 2}, TimeoutS: 120, Par: 2},
+		What:   "known finding C12-c2: the per-datagram relay step of a UDP association (real parseUDPAssociateDatagram: header -> address the datagram is sent to) has no user or policy parameter, so a datagram addressed to a loopback / unspecified / private IPv4 address is accepted for relay for every user",
+		Bounds: "IPv4 header, 2-byte payload", Outside: "the goroutines of RunUDPAssociateLoop (they call nothing between this step and WriteToUDP)"})
 }
